@@ -9,7 +9,7 @@
 Require Import ExtrOcamlBasic.
 Require Import ExtrOcamlNatInt.
 Require Import Selen.Model.Prelude Selen.Model.SparseSet Selen.Model.SetSpec.
-Require Import Selen.Model.Dom Selen.Model.Views Selen.Model.PropDefs Selen.Model.Props.Basic Selen.Model.Props.LinInt Selen.Model.Props.Global Selen.Model.Props.Logic Selen.Model.Propagate Selen.Model.Search.
+Require Import Selen.Model.Dom Selen.Model.Views Selen.Model.PropDefs Selen.Model.Props.Basic Selen.Model.Props.LinInt Selen.Model.Props.Arith Selen.Model.Props.Global Selen.Model.Props.Logic Selen.Model.Propagate Selen.Model.Search.
 Require Import Selen.Model.LP Selen.Model.Limits Selen.Generated.Consts.
 Require Import Selen.Model.Gac Selen.Model.Props.AllDiff.
 Require Import Selen.Model.B64 Selen.Model.FloatInterval Selen.Model.CtxFloat.
@@ -27,6 +27,8 @@ Extraction "selen_model.ml"
   mk_count mk_at_least mk_at_most mk_exactly mk_element mk_table table_okb
   mk_band mk_bor mk_bnot mk_bxor mk_eq_reif mk_ne_reif mk_lt_reif mk_le_reif mk_gt_reif mk_ge_reif
   mk_alleq mk_alleq_fixed kf_alleq_empty mk_between mk_ite
+  mk_mul mk_abs mk_mod mk_mod_prefix mk_minof mk_maxof mk_minof_prefix mk_maxof_prefix
+  kf_min_step6 kf_max_step6 kf_mod_prefix mod_enum_limit
   fifo lcg_pick propagate prop_fuel agenda_with search enumerate minimize maximize solve
   solve_lim minimize_lim enumerate_lim never from_check engine_check_interval
   fold fold_cons eval_expr eval_cons holds stmt_cons build lower validate psat to_linear linform
